@@ -1,6 +1,10 @@
 // one file per component; `dispatch` routes a protocol op to it
 pub mod base64;
 pub mod serve;
+pub mod query;
+pub mod json;
+pub mod mime;
+pub mod config;
 pub mod request;
 pub mod pool;
 pub mod range;
@@ -11,6 +15,10 @@ pub fn dispatch(op: &str, f: &[String]) -> String {
     if let Some(r) = cors::dispatch(op, f) { return r; }
     if let Some(r) = range::dispatch(op, f) { return r; }
     if let Some(r) = request::dispatch(op, f) { return r; }
+    if let Some(r) = config::dispatch(op, f) { return r; }
+    if let Some(r) = mime::dispatch(op, f) { return r; }
+    if let Some(r) = json::dispatch(op, f) { return r; }
+    if let Some(r) = query::dispatch(op, f) { return r; }
     "bad-op".to_string()
 }
 
@@ -19,6 +27,6 @@ pub fn run_mode(mode: &str, _args: &[String]) -> bool {
     match mode {
         "serve" => { serve::serve_loop(); true }
         "pool" => { pool::run(_args); true }
-        _ => false,
+        _ => config::run_mode(mode, _args),
     }
 }
